@@ -163,6 +163,12 @@ def spec_drop(ck):
 
 # =========================================================================== one tick of the gc task: bounded, newest-first history
 
+def _gc_replay_plan(ob):
+    if (ob.target or '') == 'gc_thread (one tick)' and 'ends-while-the-collector-is-in-a-round' in ob.label:
+        return 'locks', {'driver': 'gc_round_race', 'args': {}}, lambda o: o.get('all_reported_once') is False
+    return None
+
+
 def spec_gc_tick(ck, batch=3, old=2):
     cands = [f for f in ck.db.fns if f.name.endswith('gc_thread::{closure#0}')]
     if len(cands) != 1:
@@ -185,8 +191,13 @@ def spec_gc_tick(ck, batch=3, old=2):
     def props(idt):
         return Ref(st.alloc(Agg('ContextProps', {pf.index('id'): Int(idt, 64)})), ())
     nold = z3.BitVec('history_len', 64)        # current history: a prefix of `old` entries, within the bound
-    gc_list = SeqV.from_items([props(t) for t in ids], 'Arc<ContextProps>', 'vec')
+    batch_refs = [props(t) for t in ids]
+    gc_list = SeqV.from_items(batch_refs, 'Arc<ContextProps>', 'vec')
     old_items = [props(t) for t in oldids]
+    # the environment: the collector's round has await points, and while it waits another task may drop the last reference of one
+    # more connection -- Context::drop pushes its record onto the drop queue (under the queue's own std Mutex) at that moment
+    late_id = z3.BitVec('ended_during_the_round_id', 64)
+    late = props(late_id)
     snaps = []
     for m in range(old + 1):
         s0 = st.fork()
@@ -208,8 +219,18 @@ def spec_gc_tick(ck, batch=3, old=2):
             return Future('lockref', [which])
 
         @CA.awaiter('lockref')
-        def _aw(ctx, fut):
-            return field_ref(fut.args[0])
+        def _aw(ctx, fut, gcell=gcell):
+            outs_ = [(ctx.st, Ref(gcell, (('f', gsf.index(fut.args[0]), 'x'),)))]
+            if not ctx.st.env.get('late-push'):
+                s2 = ctx.st.fork()
+                s2.env['late-push'] = True
+                g = s2.mem[gcell]
+                q = g.fields[gsf.index('gc_list')]
+                if isinstance(q, SeqV) and q.items is not None:
+                    s2.mem[gcell] = g.with_field(gsf.index('gc_list'), SeqV.from_items(list(q.items) + [late], 'Arc<ContextProps>', 'vec'))
+                    s2.trace.append(('late-push',))
+                    outs_.append((s2, Ref(gcell, (('f', gsf.index(fut.args[0]), 'x'),))))
+            return outs_
 
         def sleep(ctx):
             n = ctx.st.env.get('sleeps', 0) + 1
@@ -239,7 +260,14 @@ def spec_gc_tick(ck, batch=3, old=2):
         g = s.mem[gcell]
         hist = g.fields[gsf.index('terminated')]
         pending = g.fields[gsf.index('gc_list')]
-        ex.prove(s, 'C16/gc/collected-batch-is-consumed', isinstance(pending, SeqV) and pending.items is not None and len(pending.items) == 0)
+        explicit = isinstance(pending, SeqV) and pending.items is not None
+        cells = [getattr(x, 'cell', None) for x in pending.items] if explicit else []
+        ex.prove(s, 'C16/gc/collected-batch-is-consumed', explicit and not any(r.cell in cells for r in batch_refs))
+        if ('late-push',) in s.trace:
+            # it was not part of the batch this round took: it must still be queued (or have been recorded in this very round)
+            recorded = isinstance(hist, SeqV) and hist.items is not None and late.cell in [getattr(x, 'cell', None) for x in hist.items]
+            ex.prove(s, 'C16/gc/a-connection-that-ends-while-the-collector-is-in-a-round-is-not-lost', explicit and (late.cell in cells or recorded))
+            continue
         if not (isinstance(hist, SeqV) and hist.items is not None):
             ck.add('C16/gc/shape', 'inconclusive', 'history not an explicit list')
             continue
@@ -259,5 +287,9 @@ def spec_gc_tick(ck, batch=3, old=2):
             ex.prove(s, 'C16/gc/live-list-removals-are-the-ended-ids',
                      z3.And([z3.Or([rem[j] == ids[i] for j in range(batch)]) for i in range(batch)] +
                             [z3.Or([rem[j] == ids[i] for i in range(batch)]) for j in range(batch)]))
+    for f in ex.findings:
+        if not hasattr(f, 'target'):
+            f.target = 'gc_thread (one tick)'
+    ck.plans.append(_gc_replay_plan)
     ck.absorb(ex, 'gc_thread (one tick)', None)
     ck.bounds['gc-tick'] = 'one tick of the gc task: %d ended connections, existing history of 0..%d entries within the bound, history_size 0..%d symbolic, no access log' % (batch, old, batch + old + 1)
